@@ -31,11 +31,15 @@ impl<T: Clone, C: Cache<T>> Cache<T> for MonCache<C> {
 
 pub const KINDS: [&str; 12] = ["resolve", "get-Dictionary", "get-Primitive", "get-PagesNode", "get-Font", "get-XObject", "raw_image_data", "image_data", "stream-data", "get-ObjectStream", "get-Resources", "get_page"];
 
-fn err(e: &PdfError) -> String { format!("Err({})", root_kind(e)) }
+fn err(e: &PdfError) -> String {
+    let k = root_kind(e);
+    if k == "Other" { format!("Err(Other:{})", format!("{}", crate::doc::root_cause(e)).chars().take(40).collect::<String>()) } else { format!("Err({})", k) }
+}
 fn h(d: &[u8]) -> String { format!("{}b#{:016x}", d.len(), fnv(d)) }
 
 /// one read call, rendered offset- and address-independently
 pub fn exec_call(res: &impl Resolve, id: u64, kind: usize) -> String {
+    let err = |e: &PdfError| err(e);
     let r = PlainRef { id, gen: 0 };
     match kind {
         0 => match res.resolve(r) { Ok(p) => digest(&p, res), Err(e) => err(&e) },
